@@ -32,6 +32,23 @@ class _Function(object):
     self.context_name = None
 
 
+def _nested_lambda_params(node):
+  """Parameter names of the lambdas nested in node.
+
+  Nested lambdas get no scope object of their own: the calls in their bodies
+  refer to the scope object of the enclosing function, so its name must not be
+  one of their parameters.
+  """
+  names = set()
+  for n in ast.walk(node):
+    if isinstance(n, ast.Lambda) and n is not node:
+      a = n.args
+      for arg in a.posonlyargs + a.args + a.kwonlyargs + [a.vararg, a.kwarg]:
+        if arg is not None:
+          names.add(arg.arg)
+  return names
+
+
 class FunctionTransformer(converter.Base):
   """Wraps function bodies around malt-specific boilerplate."""
 
@@ -57,8 +74,8 @@ class FunctionTransformer(converter.Base):
             'ag__.autograph_artifact(l)', l=node)
 
       scope = anno.getanno(node, annos.NodeAnno.ARGS_AND_BODY_SCOPE)
-      function_context_name = self.ctx.namer.new_symbol('lscope',
-                                                        scope.referenced)
+      function_context_name = self.ctx.namer.new_symbol(
+          'lscope', scope.referenced | _nested_lambda_params(node))
       fn_scope.context_name = function_context_name
       anno.setanno(node, 'function_context_name', function_context_name)
 
@@ -79,8 +96,8 @@ class FunctionTransformer(converter.Base):
     with self.state[_Function] as fn_scope:
       scope = anno.getanno(node, annos.NodeAnno.BODY_SCOPE)
 
-      function_context_name = self.ctx.namer.new_symbol('fscope',
-                                                        scope.referenced)
+      function_context_name = self.ctx.namer.new_symbol(
+          'fscope', scope.referenced | _nested_lambda_params(node))
       fn_scope.context_name = function_context_name
       anno.setanno(node, 'function_context_name', function_context_name)
 
